@@ -12,11 +12,16 @@ WNAMES = ['W_SameNameTwice', 'W_LostLink', 'W_DupFound', 'W_ScanBeyondMapping', 
           'W_ReserveRaced', 'W_ValueRaced', 'W_UnwrittenSeen', 'W_KilledAfterReserve', 'W_KilledAfterWrite', 'W_KilledMidAdd']
 
 
+def names_of(p):
+    """a process is (task, name) or (task, [name, name, ...]): the counters it increments one after the other"""
+    return list(p[1]) if isinstance(p[1], (list, tuple)) else [p[1]]
+
+
 def fam(name, procs, init_slots, warm=None, warmval=0, maxval=1000):
     # a process may give a record up and allocate another one (repaired F16): one spare slot per process
     # warm: a counter whose record exists before the race, with a value `maxval - warmval` short of the
     # saturation limit (the model counts relative to 2^64-1-maxval)
-    return dict(name=name, procs=procs, init=init_slots, maxslots=init_slots + 2 * len(procs) + (1 if warm else 0),
+    return dict(name=name, procs=procs, init=init_slots, maxslots=init_slots + 2 * sum(len(names_of(p)) for p in procs) + (1 if warm else 0),
                 warm=warm, warmval=warmval, maxval=maxval)
 
 
@@ -51,6 +56,9 @@ def families():
         # value addition at the saturation limit: the record exists with a value one short of the limit;
         # the first add reaches it, the second must stick (never wrap, never decrease, also when killed mid-add)
         fam('sat2', [('p1', 'n1'), ('p2', 'n1')], 1, warm='n1', warmval=2, maxval=3),
+        # each process creates two counters one after the other, in opposite order: the second creation
+        # starts from whatever mapping and table the first one (and the other process) left behind
+        fam('twice2', [('p1', ['n1', 'n2']), ('p2', ['n2', 'n1'])], 1),
     ]
     big = [
         fam('same3', [('p1', 'n1'), ('p2', 'n1'), ('p3', 'n1')], 3),
@@ -67,16 +75,16 @@ def mc_module(f, base='CounterFile', name='MCCounterFile', extra=''):
     return '''---- MODULE %s ----
 EXTENDS %s
 MCProcs == {%s}
-MCNameOf == (%s)
+MCNamesOf == (%s)
 MCNames == {"n1", "n2", "n3", "n4", "n6", "n7"}
 MCBucketOf == ("n1" :> "b1" @@ "n2" :> "b1" @@ "n3" :> "b2" @@ "n4" :> "b1" @@ "n6" :> "b3" @@ "n7" :> "b3")
 %s
 ====
-''' % (name, base, ', '.join('"%s"' % p for p in ps), ' @@ '.join('"%s" :> "%s"' % p for p in f['procs']), extra)
+''' % (name, base, ', '.join('"%s"' % p for p in ps), ' @@ '.join('"%s" :> <<%s>>' % (p[0], ', '.join('"%s"' % n for n in names_of(p))) for p in f['procs']), extra)
 
 
 def mc_cfg(f, spec='Spec', invariants=(), props=(), kill=True, deadlock=False):
-    s = ('SPECIFICATION %s\nCONSTANTS\n Procs <- MCProcs\n NameOf <- MCNameOf\n Names <- MCNames\n BucketOf <- MCBucketOf\n'
+    s = ('SPECIFICATION %s\nCONSTANTS\n Procs <- MCProcs\n NamesOf <- MCNamesOf\n Names <- MCNames\n BucketOf <- MCBucketOf\n'
          ' Buckets = {"b1", "b2", "b3"}\n K = %d\n InitSlots = %d\n MaxSlots = %d\n MaxPages = 8\n MaxTries = 10\n AllowKill = %s\n FixF16 = TRUE\n MaxVal = %d\n WarmName = "%s"\n WarmVal = %d\n') % (
         spec, K, f['init'], f['maxslots'], 'TRUE' if kill else 'FALSE', f['maxval'], f['warm'] or 'none', f['warmval'])
     if invariants:
@@ -185,7 +193,7 @@ def run(ctx):
 
     def add_run(f, sched, finish, why):
         rid = len(runs) + 1
-        runs.append(dict(id=rid, family=f['name'], procs=[dict(name=p[0], ctr=p[1]) for p in f['procs']], initSlots=f['init'],
+        runs.append(dict(id=rid, family=f['name'], procs=[dict(name=p[0], ctr=names_of(p)[0], ctrs=names_of(p)) for p in f['procs']], initSlots=f['init'],
                          maxSlots=f['maxslots'], schedule=sched, finish=finish, seed=rng.randrange(1 << 30), trace=True,
                          warm=f['warm'] or '', warmVal=f['warmval'], maxVal=f['maxval'] if f['warm'] else 0))
         runfam[rid] = (f, why)
@@ -299,7 +307,7 @@ def run(ctx):
     lines = []
     for k in sorted(obs):
         res = results[k]
-        procs = {p['name']: p['ctr'] for p in runs[k - 1]['procs']}
+        procs = {p['name']: p['ctrs'] for p in runs[k - 1]['procs']}
         for o in obs[k]:
             lines.append({'run': k, 'i': o['i'], 'size': o['size'], 'limit': o['limit'], 'head': o['head'], 'rec': o['rec'], 'begun': o['begun'],
                           'problems': o['problems'], 'final': False, 'survivors': {'n1': 0, 'n2': 0, 'n3': 0, 'n4': 0, 'n6': 0, 'n7': 0}})
@@ -309,7 +317,8 @@ def run(ctx):
             surv = {'n1': 0, 'n2': 0, 'n3': 0, 'n4': 0, 'n6': 0, 'n7': 0}
             for p, fin in res['finished'].items():
                 if fin and not res.get('pending', {}).get(p):
-                    surv[procs[p]] += 1
+                    for n in procs[p]:
+                        surv[n] += 1
             fk = runfam[k][0]
             if fk['warm']:
                 surv[fk['warm']] = min(surv[fk['warm']] + fk['warmval'], fk['maxval'])
